@@ -67,12 +67,12 @@ theorem runText_Ft (m : Nat → Nat) (s : St) (rs : Ref.St) (p : List Expr) (hne
     show (List.set gs'.fns mainFn _).length = _; simp
   have hkeep : FnsKeep s (loadedF s gs' code) :=
     ⟨by rw [hlenL]; exact hk.len, fun id hid hne' => by rw [hfother id hne']; exact hk.fns id hid,
-     by rw [hfmain], by rw [hfmain]⟩
+     by rw [hfmain], by rw [hfmain], ⟨hk.loopsLen, hk.loopsGet⟩⟩
   have hrelL : RelF m (loadedF s gs' code) { rs with trace := [] } 0 :=
     hrel.load rfl rfl hs.cur.symm rfl rfl hkeep
   have hgen : GenOk { fns := s.fns, loops := s.loops, loopstack := s.loopstack, live := s.linear } gs' (loadedF s gs' code) :=
     ⟨hlin, hs.main, by rw [hlenL]; exact Nat.le_refl _,
-     fun t' h1 _ => hfother t' (by have := hs.main; simp only at h1; omega)⟩
+     fun t' h1 _ => hfother t' (by have := hs.main; simp only at h1; omega), ⟨Nat.le_refl _, fun _ _ _ => rfl⟩⟩
   have hsim := segment_Ff_begin true "" p hne hp _ {} (Or.inl rfl) _ ((code, t), gs') hc m (loadedF s gs' code)
     { rs with trace := [] } 0 (fnOf s mainFn).code [] hrelL (fun _ => hgen) hseg n
   cases hres : Ref.evalBegin n p 0 { rs with trace := [] } with
